@@ -28,6 +28,9 @@ deriving Repr
 
 structure Obs04 where
   hasTime    : Bool
+  /-- separable network on a non-stationary batch: the condition is enforced at
+      (times of the batch) × (border points of the facet), not at the rows only -/
+  timesCross : Bool
   w          : Rat
   border     : List (List (List Rat))
   facets     : List (Option Facet04)
@@ -62,7 +65,8 @@ def c04FacetPts (border : List (List (List Rat))) (k : Nat) : List (List Rat) :=
   border.map fun row => row.map fun c => c.getD k 0
 
 def c04Facet (o : Obs04) (d k : Nat) (fc : Facet04) : Rat :=
-  let pts := c04FacetPts o.border k
+  let rows := c04FacetPts o.border k
+  let pts := if o.timesCross then rows.flatMap fun r => rows.map fun r' => r.headD 0 :: r'.drop 1 else rows
   o.w * ((pts.map (c04Point o fc d k)).sum / (pts.length : Rat))
 
 def c04Expected (o : Obs04) : Rat :=
